@@ -270,9 +270,12 @@ where
     that could not be read or decoded, an entry that came back with another identifier than its key (altered bytes
     that still decode). An entry that merely cannot be READ (missing, truncated, garbage) excuses nothing: the
     exchange stores its response in place of that reference, and the replaced response is removed. -/
+def faultOnIndex (h : Hist) : Bool :=
+  h.faults.any fun f => (h.stores f.n f.stream).any fun s => s.idx = f.idx && !s.key.contains '#'
+
 def storeFaultThatOrphans (h : Hist) : Bool :=
   -- any injected fault on an operation on an INDEX key (a read answered "not there" makes the cache start a new index)
-  (h.faults.any fun f => (h.stores f.n f.stream).any fun s => s.idx = f.idx && !s.key.contains '#') ||
+  faultOnIndex h ||
   h.evs.any fun
     | .store s =>
       ((s.op == "set" || s.op == "del") && s.result != "ok") ||
@@ -301,7 +304,10 @@ def monC19 (h : Hist) : Option String :=
     h.evs.findSome? fun
       | .store s => match s.op, s.val with
         | "set", .idx refs _ =>
-          if refs.length > combos.length then some s!"exchange {s.n}: index {shw s.key} has {refs.length} references for {combos.length} combinations"
+          -- (an index whose bytes a store fault altered and that still decodes names responses nobody stored: C19
+          --  speaks of histories without store faults; thorough seed 11 flipped one byte inside a recorded identifier)
+          if faultOnIndex h then none
+          else if refs.length > combos.length then some s!"exchange {s.n}: index {shw s.key} has {refs.length} references for {combos.length} combinations"
           else if (refs.map (·.id)).eraseDups.length < refs.length &&
                   refs.any (fun r => (refs.filter (fun r' => r' = r)).length > 1) then
             some s!"exchange {s.n}: index {shw s.key} holds identical references"
